@@ -13,6 +13,9 @@ import PharmpyModel.C12.Derivs
     (encode DATASET MODEL)   -> ((row n) .. (text s) ..)       ModelHash pre-image
     (canonderivs ((NAME ..) ..)) -> (ok ((NAME ..) ..)) | (err IndexError)   EstimationStep._canonicalize_derivatives
     (leaf REPR)              -> (ok "<text>")                  the numeric leaf encoder of json.dumps on one float
+    (infcreate AMOUNT ADMID OPT-RATE OPT-DURATION) -> (ok "<json text>") | (err ValueError)   Infusion.create(..).to_dict()
+    (dosesubs DOSE ((FROM TO) ..)) -> (ok "<json text>") | (err none)   dose.subs(f).to_dict(); f = the table of
+                                                            (serialised field, serialised field after Expr.subs), identity elsewhere
 -/
 open Pharmpy Pharmpy.C12
 
@@ -292,6 +295,20 @@ def handle (req : Sexp) : Sexp :=
       | some r => .list [.atom "ok", .list (r.map Sexp.ofStrs)]
       | none => .list [.atom "err", .atom "IndexError"]
     | none => bad
+  | .list [.atom "infcreate", .atom a, n, r, d] =>
+    match n.asInt?, optS? r, optS? d with
+    | some n, some r, some d =>
+      match Infusion.create a n r d with
+      | some i => okText (i.toDict idCodec)
+      | none => .list [.atom "err", .atom "ValueError"]
+    | _, _, _ => bad
+  | .list [.atom "dosesubs", x, tbl] =>
+    match doseOf? x, listOf? pairOf? tbl with
+    | some d, some t =>
+      match d.subs (fun e => (t.lookup e).getD e) with
+      | some d' => okText (d'.toDict idCodec)
+      | none => errNone
+    | _, _ => bad
   | .list [.atom "leaf", .atom r] => .list [.atom "ok", .atom (render (.flt r))]
   | .list [.atom "encode", ds, m] =>
     match datasetOf? ds, modelOf? m with
